@@ -1,8 +1,270 @@
 /-
   Helper lemmas for the ABA counter-example (C02Full).
+
+  * `iter_eq` / `iter_cycle`: the generation counter under completed updates is a cycle of length
+    32767 on the even values 2 … 65534;
+  * `update_once` (L1) / `update_many` (L2): the writer alone performs any number of complete updates
+    from any reachable state in which it is idle, leaving the reader untouched;
+  * `reach_rfresh` / `reach_rfresh_ret` (L3): a reader step with fresh reads, lifted to `Reachable`;
+  * `aba_execution` (L4): the stalled-reader execution for the repaired annotation `{}`.
 -/
 import ClockBound.Model.SeqlockSys
+import ClockBound.Proofs.SeqlockReader
 namespace ClockBound.SLA
 open ClockBound ClockBound.SL
+
+/-! ### the generation cycle -/
+
+/-- the generation after `k` completed updates -/
+def iter (k g : Nat) : Nat := (List.range k).foldl (fun x _ => genFinish (genStart x)) g
+
+theorem iter_zero (g : Nat) : iter 0 g = g := rfl
+
+theorem iter_succ (k g : Nat) : iter (k + 1) g = genFinish (genStart (iter k g)) := by
+  unfold iter
+  rw [List.range_succ, List.foldl_append]
+  rfl
+
+/-- one completed update on an even in-range generation -/
+theorem update_gen {v : Nat} (he : v % 2 = 0) (h2 : 2 ≤ v) (h : v < 65536) :
+    genFinish (genStart v) = if v = 65534 then 2 else v + 2 := by
+  unfold genFinish genStart
+  rw [if_pos he]
+  have h1 : (v + 1) % 65536 = v + 1 := Nat.mod_eq_of_lt (by omega)
+  rw [h1]
+  dsimp only
+  by_cases hv : v = 65534
+  · subst hv; rfl
+  · rw [if_neg hv]
+    have h3 : (v + 1 + 1) % 65536 = v + 2 := Nat.mod_eq_of_lt (by omega)
+    rw [h3, if_neg (by omega)]
+
+theorem iter_eq (k g : Nat) (hg : g % 2 = 0) (h2 : 2 ≤ g) (h : g < 65536) :
+    iter k g = 2 + (g - 2 + 2 * k) % 65534 := by
+  induction k with
+  | zero => rw [iter_zero]; omega
+  | succ k ih =>
+    rw [iter_succ, ih, update_gen (by omega) (by omega) (by omega)]
+    split <;> omega
+
+theorem iter_cycle (g : Nat) (hg : g % 2 = 0) (h2 : 2 ≤ g) (h : g < 65536) : iter 32767 g = g := by
+  rw [iter_eq _ _ hg h2 h]; omega
+
+/-! ### newest values after an append -/
+
+theorem latest_snoc (log : Log) (m : SL.Msg) (x : Loc) :
+    latest (log ++ [m]) x = if m.loc = x then m.val else latest log x := by
+  unfold latest
+  rw [SLR.lastBefore_append]
+  by_cases hm : m.loc = x
+  · rw [if_pos hm, if_pos hm]
+    simp
+  · rw [if_neg hm, if_neg hm]
+    cases h : lastBefore log x log.length with
+    | none => rfl
+    | some j =>
+      have hj : j < log.length := by
+        have := (SLR.lastBefore_some.mp h).1
+        omega
+      simp only [List.getElem?_append_left hj]
+
+theorem latest_store (log : Log) (rf : Nat) (x : Loc) (v : Nat) (o : Ord) (y : Loc) :
+    latest (storeMsg log rf x v o) y = if x = y then v else latest log y := by
+  unfold storeMsg
+  rw [latest_snoc]
+
+/-! ### L1: one complete update by the writer alone -/
+
+/-- a system state, fields spelled out -/
+abbrev mk (log : Log) (w : Writer) (r : Reader) (wr ret : List (List Nat)) : Sys :=
+  { log := log, w := w, r := r, written := wr, returned := ret }
+
+theorem update_once {s0 : Sys} {log : Log} {rf : Nat} {r : Reader} {wr ret : List (List Nat)}
+    (a0 a1 a2 a3 a4 a5 a6 : Nat)
+    (h : Reachable ({} : Ann) s0 (mk log ⟨.idle, rf⟩ r wr ret)) :
+    ∃ log' rf', Reachable ({} : Ann) s0 (mk log' ⟨.idle, rf'⟩ r ([a0, a1, a2, a3, a4, a5, a6] :: wr) ret) ∧
+      latest log' .gen = genFinish (genStart (latest log .gen)) ∧
+      latest log' .version = latest log .version ∧
+      latest log' (.cell 0) = a0 ∧ latest log' (.cell 1) = a1 ∧ latest log' (.cell 2) = a2 ∧
+      latest log' (.cell 3) = a3 ∧ latest log' (.cell 4) = a4 ∧ latest log' (.cell 5) = a5 ∧
+      latest log' (.cell 6) = a6 := by
+  let rec_ : List Nat := [a0, a1, a2, a3, a4, a5, a6]
+  let g := genStart (latest log .gen)
+  have s1 : Reachable ({} : Ann) s0 (mk log ⟨.loadGen rec_, rf⟩ r (rec_ :: wr) ret) :=
+    Reachable.step h (Step.wWrite _ rec_ rfl rfl)
+  have s2 : Reachable ({} : Ann) s0 (mk log ⟨.store1 rec_ g, rf⟩ r (rec_ :: wr) ret) :=
+    Reachable.step s1 (Step.wStep _ 0 (by simp))
+  let l1 := storeMsg log rf .gen g .release
+  have s3 : Reachable ({} : Ann) s0 (mk l1 ⟨.fence rec_ g, rf⟩ r (rec_ :: wr) ret) :=
+    Reachable.step s2 (Step.wStep _ 0 (by simp))
+  let f := l1.length
+  have s4 : Reachable ({} : Ann) s0 (mk l1 ⟨.copy rec_ g [0, 1, 2, 3, 4, 5, 6], f⟩ r (rec_ :: wr) ret) :=
+    Reachable.step s3 (Step.wStep _ 0 (by simp))
+  let c0 := storeMsg l1 f (.cell 0) a0 .relaxed
+  have s5 : Reachable ({} : Ann) s0 (mk c0 ⟨.copy rec_ g [1, 2, 3, 4, 5, 6], f⟩ r (rec_ :: wr) ret) :=
+    Reachable.step s4 (Step.wStep _ 0 (by simp))
+  let c1 := storeMsg c0 f (.cell 1) a1 .relaxed
+  have s6 : Reachable ({} : Ann) s0 (mk c1 ⟨.copy rec_ g [2, 3, 4, 5, 6], f⟩ r (rec_ :: wr) ret) :=
+    Reachable.step s5 (Step.wStep _ 0 (by simp))
+  let c2 := storeMsg c1 f (.cell 2) a2 .relaxed
+  have s7 : Reachable ({} : Ann) s0 (mk c2 ⟨.copy rec_ g [3, 4, 5, 6], f⟩ r (rec_ :: wr) ret) :=
+    Reachable.step s6 (Step.wStep _ 0 (by simp))
+  let c3 := storeMsg c2 f (.cell 3) a3 .relaxed
+  have s8 : Reachable ({} : Ann) s0 (mk c3 ⟨.copy rec_ g [4, 5, 6], f⟩ r (rec_ :: wr) ret) :=
+    Reachable.step s7 (Step.wStep _ 0 (by simp))
+  let c4 := storeMsg c3 f (.cell 4) a4 .relaxed
+  have s9 : Reachable ({} : Ann) s0 (mk c4 ⟨.copy rec_ g [5, 6], f⟩ r (rec_ :: wr) ret) :=
+    Reachable.step s8 (Step.wStep _ 0 (by simp))
+  let c5 := storeMsg c4 f (.cell 5) a5 .relaxed
+  have s10 : Reachable ({} : Ann) s0 (mk c5 ⟨.copy rec_ g [6], f⟩ r (rec_ :: wr) ret) :=
+    Reachable.step s9 (Step.wStep _ 0 (by simp))
+  let c6 := storeMsg c5 f (.cell 6) a6 .relaxed
+  have s11 : Reachable ({} : Ann) s0 (mk c6 ⟨.store2 rec_ g, f⟩ r (rec_ :: wr) ret) :=
+    Reachable.step s10 (Step.wStep _ 0 (by simp))
+  let l2 := storeMsg c6 f .gen (genFinish g) .release
+  have s12 : Reachable ({} : Ann) s0 (mk l2 ⟨.idle, f⟩ r (rec_ :: wr) ret) :=
+    Reachable.step s11 (Step.wStep _ 0 (by simp))
+  refine ⟨l2, f, s12, ?_, ?_, ?_, ?_, ?_, ?_, ?_, ?_, ?_⟩ <;>
+    simp [l2, c6, c5, c4, c3, c2, c1, c0, l1, latest_store, g]
+
+/-! ### L2: any number of complete updates -/
+
+theorem update_many {s0 : Sys} {r : Reader} {ret : List (List Nat)} (a0 a1 a2 a3 a4 a5 a6 : Nat)
+    (wr0 : List (List Nat)) (g0 v0 : Nat) (k : Nat) :
+    ∀ {log : Log} {rf : Nat} {wr : List (List Nat)},
+      Reachable ({} : Ann) s0 (mk log ⟨.idle, rf⟩ r wr ret) →
+      (∀ x ∈ wr, x ∈ wr0 ∨ x = [a0, a1, a2, a3, a4, a5, a6]) →
+      latest log .gen = g0 → latest log .version = v0 →
+      ∃ log' rf' wr', Reachable ({} : Ann) s0 (mk log' ⟨.idle, rf'⟩ r wr' ret) ∧
+        (∀ x ∈ wr', x ∈ wr0 ∨ x = [a0, a1, a2, a3, a4, a5, a6]) ∧
+        latest log' .gen = iter (k + 1) g0 ∧
+        latest log' .version = v0 ∧
+        latest log' (.cell 0) = a0 ∧ latest log' (.cell 1) = a1 ∧ latest log' (.cell 2) = a2 ∧
+        latest log' (.cell 3) = a3 ∧ latest log' (.cell 4) = a4 ∧ latest log' (.cell 5) = a5 ∧
+        latest log' (.cell 6) = a6 := by
+  induction k with
+  | zero =>
+    intro log rf wr h hw hg hv
+    obtain ⟨log', rf', h', e⟩ := update_once a0 a1 a2 a3 a4 a5 a6 h
+    refine ⟨log', rf', _, h', ?_, ?_, ?_, e.2.2⟩
+    · intro x hx
+      rcases List.mem_cons.mp hx with rfl | hx
+      · exact Or.inr rfl
+      · exact hw x hx
+    · rw [e.1, hg, iter_succ, iter_zero]
+    · rw [e.2.1, hv]
+  | succ k ih =>
+    intro log rf wr h hw hg hv
+    obtain ⟨log1, rf1, wr1, h1, hw1, hg1, hv1, _⟩ := ih h hw hg hv
+    obtain ⟨log', rf', h', e⟩ := update_once a0 a1 a2 a3 a4 a5 a6 h1
+    refine ⟨log', rf', _, h', ?_, ?_, ?_, e.2.2⟩
+    · intro x hx
+      rcases List.mem_cons.mp hx with rfl | hx
+      · exact Or.inr rfl
+      · exact hw1 x hx
+    · rw [e.1, hg1, ← iter_succ]
+    · rw [e.2.1, hv1]
+
+/-! ### L3: reader steps with fresh reads, lifted to `Reachable` -/
+
+theorem reach_rfresh {a : Ann} {s0 : Sys} {log : Log} {w : Writer} {r r' : Reader}
+    {wr ret : List (List Nat)} (h : Reachable a s0 (mk log w r wr ret)) (hpc : r.pc ≠ .idle)
+    (e : SLR.rStep2 a log r = (r', none)) : Reachable a s0 (mk log w r' wr ret) := by
+  have hs := Reachable.step h (Step.rStep _ 0 0 hpc)
+  unfold SLR.rStep2 at e
+  have e1 : (rStep a log r 0 0).1 = r' := congrArg Prod.fst e
+  have e2 : (rStep a log r 0 0).2.1 = none := congrArg Prod.snd e
+  simp only [e1, e2, returnedBy] at hs
+  exact hs
+
+theorem reach_rfresh_ret {a : Ann} {s0 : Sys} {log : Log} {w : Writer} {r : Reader}
+    {wr ret : List (List Nat)} {c : List Nat} (h : Reachable a s0 (mk log w r wr ret))
+    (hpc : r.pc ≠ .idle) (e : (SLR.rStep2 a log r).2 = some (.ok c)) :
+    ∃ r', Reachable a s0 (mk log w r' wr (c :: ret)) := by
+  have hs := Reachable.step h (Step.rStep _ 0 0 hpc)
+  unfold SLR.rStep2 at e
+  have e2 : (rStep a log r 0 0).2.1 = some (.ok c) := e
+  simp only [e2, returnedBy] at hs
+  exact ⟨_, hs⟩
+
+theorem cohOk_of_reachable {a : Ann} {ver gen : Nat} {cells : List Nat} {s : Sys}
+    (h : Reachable a (Sys.init ver gen cells) s) : SLR.CohOk s.log s.r.view :=
+  (SLR.sysInv_reachable (SLR.sysInv_init ver gen cells) h).view.2.2
+
+/-! ### L4: the stalled-reader execution -/
+
+/-- the initial block of the counter-example -/
+abbrev l0 : Log := initBlock 1 4 (List.replicate N 7)
+/-- the initial state of the counter-example -/
+abbrev s0 : Sys := Sys.init 1 4 (List.replicate N 7)
+
+/-- newest values of the initial block used by the counter-example -/
+theorem init_latest :
+    latest l0 .version = 1 ∧ latest l0 .gen = 4 ∧
+    latest l0 (.cell 0) = 7 ∧ latest l0 (.cell 1) = 7 ∧ latest l0 (.cell 2) = 7 := by
+  decide
+
+/-- the execution: the reader copies cells 0–2 of the old record, stalls while the writer completes
+    32767 updates with the record `9…9`, copies cells 3–6, re-reads the same generation and accepts -/
+theorem aba_execution :
+    ∃ s : Sys, Reachable ({} : Ann) (Sys.init 1 4 (List.replicate N 7)) s ∧
+      s.returned = [[7, 7, 7, 9, 9, 9, 9]] ∧
+      ∀ x ∈ s.written, x = [9, 9, 9, 9, 9, 9, 9] := by
+  obtain ⟨iv, ig, ic0, ic1, ic2⟩ := init_latest
+  -- phase 1: the reader starts a call and copies cells 0, 1, 2
+  have p0 : Reachable ({} : Ann) s0 (mk l0 {} ({} : Reader).call [] []) :=
+    Reachable.step Reachable.refl (Step.rCall _ rfl)
+  obtain ⟨r1, e1, q1, -, g1, -⟩ := SLR.fresh_version {} l0 ({} : Reader).call rfl
+    (cohOk_of_reachable p0) (by rw [iv]; decide)
+  have p1 := reach_rfresh p0 (by simp [Reader.call]) e1
+  obtain ⟨r2, e2, q2, -⟩ := SLR.fresh_gen1_go {} l0 r1 q1 (cohOk_of_reachable p1)
+    (by rw [ig]; decide) (by rw [ig]) (by rw [g1, ig]; decide)
+  have p2 := reach_rfresh p1 (by simp [q1]) e2
+  have hN : List.range N = [0, 1, 2, 3, 4, 5, 6] := by decide
+  rw [hN, ig] at q2
+  obtain ⟨r3, e3, q3, -⟩ := SLR.fresh_copy {} l0 r2 _ _ _ _ _ q2 (by decide) (cohOk_of_reachable p2)
+  have p3 := reach_rfresh p2 (by simp [q2]) e3
+  simp only [List.isEmpty_cons, Bool.false_eq_true, if_false, ic0] at q3
+  obtain ⟨r4, e4, q4, -⟩ := SLR.fresh_copy {} l0 r3 _ _ _ _ _ q3 (by decide) (cohOk_of_reachable p3)
+  have p4 := reach_rfresh p3 (by simp [q3]) e4
+  simp only [List.isEmpty_cons, Bool.false_eq_true, if_false, ic1] at q4
+  obtain ⟨r5, e5, q5, -⟩ := SLR.fresh_copy {} l0 r4 _ _ _ _ _ q4 (by decide) (cohOk_of_reachable p4)
+  have p5 := reach_rfresh p4 (by simp [q4]) e5
+  simp only [List.isEmpty_cons, Bool.false_eq_true, if_false, ic2] at q5
+  -- phase 2: a writer process starts and completes 32767 updates
+  have w1 : Reachable ({} : Ann) s0 (mk l0 ⟨.newVersion, 0⟩ r5 [] []) :=
+    Reachable.step p5 (Step.wNew _ rfl)
+  have w2 : Reachable ({} : Ann) s0 (mk (storeMsg l0 0 .version 1 .relaxed) ⟨.idle, 0⟩ r5 [] []) :=
+    Reachable.step w1 (Step.wStep _ 0 (by simp))
+  obtain ⟨lg, rf, wr, w3, hwr, hg, hv, k0, k1, k2, k3, k4, k5, k6⟩ :=
+    update_many 9 9 9 9 9 9 9 [] 4 1 32766 w2 (by simp)
+      (by rw [latest_store, ig]; simp) (by rw [latest_store]; simp)
+  rw [show 32766 + 1 = 32767 from rfl, iter_cycle 4 (by decide) (by decide) (by decide)] at hg
+  -- phase 3: the reader resumes, copies cells 3–6, fences and re-reads the generation
+  obtain ⟨r6, e6, q6, -⟩ := SLR.fresh_copy {} lg r5 _ _ _ _ _ q5 (by decide) (cohOk_of_reachable w3)
+  have p6 := reach_rfresh w3 (by simp [q5]) e6
+  simp only [List.isEmpty_cons, Bool.false_eq_true, if_false, k3] at q6
+  obtain ⟨r7, e7, q7, -⟩ := SLR.fresh_copy {} lg r6 _ _ _ _ _ q6 (by decide) (cohOk_of_reachable p6)
+  have p7 := reach_rfresh p6 (by simp [q6]) e7
+  simp only [List.isEmpty_cons, Bool.false_eq_true, if_false, k4] at q7
+  obtain ⟨r8, e8, q8, -⟩ := SLR.fresh_copy {} lg r7 _ _ _ _ _ q7 (by decide) (cohOk_of_reachable p7)
+  have p8 := reach_rfresh p7 (by simp [q7]) e8
+  simp only [List.isEmpty_cons, Bool.false_eq_true, if_false, k5] at q8
+  obtain ⟨r9, e9, q9, -⟩ := SLR.fresh_copy {} lg r8 _ _ _ _ _ q8 (by decide) (cohOk_of_reachable p8)
+  have p9 := reach_rfresh p8 (by simp [q8]) e9
+  simp only [List.isEmpty_nil, if_true, k6] at q9
+  have q9' : r9.pc = .fence 4 RETRIES [(6, 9), (5, 9), (4, 9), (3, 9), (2, 7), (1, 7), (0, 7)] := q9
+  obtain ⟨r10, e10, q10, -⟩ := SLR.fresh_fence {} lg r9 _ _ _ q9' (cohOk_of_reachable p9)
+  have p10 := reach_rfresh p9 (by simp [q9']) e10
+  have q10' : r10.pc = .gen2 (latest lg .gen) RETRIES
+      [(6, 9), (5, 9), (4, 9), (3, 9), (2, 7), (1, 7), (0, 7)] := by rw [hg]; exact q10
+  obtain ⟨r11, p11⟩ := reach_rfresh_ret p10 (by simp [q10])
+    (SLR.fresh_gen2 {} lg r10 _ _ q10' (cohOk_of_reachable p10))
+  rw [SLR.assemble_seven] at p11
+  refine ⟨_, p11, rfl, ?_⟩
+  intro x hx
+  rcases hwr x hx with h | h
+  · cases h
+  · exact h
 
 end ClockBound.SLA
